@@ -323,7 +323,8 @@ def check(run):
     A = run.A
     from ..opt import check_axisless_squeeze
     check_axisless_squeeze(run, A, ('pb_bss.extraction.mask_module',))
-    from ..opt import check_optional_truthiness, check_params_reach, check_forwarding, check_stale_loop_variables, check_argument_names
+    from ..opt import check_optional_truthiness, check_params_reach, check_forwarding, check_stale_loop_variables, check_argument_names, check_none_use
+    check_none_use(run, A, ('pb_bss.extraction.mask_module',))
     check_argument_names(run, A, ('pb_bss.extraction.mask_module',))
     check_stale_loop_variables(run, A, ('pb_bss.extraction.mask_module',))
     check_forwarding(run, A, ('pb_bss.extraction.mask_module',))
